@@ -212,6 +212,16 @@ class _Canon(ast.NodeTransformer):
                 s.orelse = []
                 stmts = stmts[:i + 1] + rest + stmts[i + 1:]
                 nxt = stmts[i + 1] if i + 1 < len(stmts) else None
+            # if X < 0: X = 0   ->   X = max(X, 0)          (explicit clamp; also  if X > c: X = c -> X = min(X, c))
+            if isinstance(s, ast.If) and not s.orelse and len(s.body) == 1 and isinstance(s.body[0], ast.Assign) and len(s.body[0].targets) == 1 \
+                    and isinstance(s.body[0].targets[0], ast.Name) and isinstance(s.test, ast.Compare) and len(s.test.ops) == 1 and isinstance(s.test.ops[0], ast.Lt):
+                x, bound = s.body[0].targets[0].id, s.body[0].value
+                l, r = s.test.left, s.test.comparators[0]
+                if isinstance(bound, (ast.Constant, ast.Name, ast.Attribute)):
+                    if isinstance(l, ast.Name) and l.id == x and ast.dump(r) == ast.dump(bound):      # if x < b: x = b
+                        s = ast.copy_location(ast.Assign(targets=s.body[0].targets, value=ast.Call(func=ast.Name(id='max', ctx=ast.Load()), args=[l, bound], keywords=[])), s)
+                    elif isinstance(r, ast.Name) and r.id == x and ast.dump(l) == ast.dump(bound):    # if b < x: x = b
+                        s = ast.copy_location(ast.Assign(targets=s.body[0].targets, value=ast.Call(func=ast.Name(id='min', ctx=ast.Load()), args=[r, bound], keywords=[])), s)
             # if c: A (always leaves the block) else: B   ->   if c: A ; B     (guard-clause form)
             if isinstance(s, ast.If) and s.orelse and _always_leaves(s.body):
                 rest = s.orelse
